@@ -37,3 +37,7 @@ for i, d in enumerate(sorted(glob.glob(os.path.join(V, 'seeded_harmless', 'h*'))
         print(os.path.basename(d), meta.get('class'), p, v, flush=True)
     json.dump(dict(id=os.path.basename(d), cls=meta.get('class'), summary=meta.get('summary'), results=res), open(os.path.join(d, 'result.json'), 'w'), indent=1)
 sh('git', '-C', '/repo', 'worktree', 'remove', '--force', WT)
+# the scratch build output of this invocation (cargo target, traces, evidence copies) is several GiB: remove it
+_alt = 'h%d' % shard[0]
+for _d in ('target_alt', 'target_noalloc_alt', 'harness_alt', 'traces_alt', 'evidence_alt'):
+    sh('rm', '-rf', os.path.join(V, 'build', _d + _alt))
